@@ -720,6 +720,21 @@ class Program:
         for k in self.pdb.bodies:
             yield self.func(k)
 
+    def straight_line(self, g):
+        """no store through a projection, reference or view and no `&mut` argument anywhere in g: its return term is then the whole
+        story (a value built once and not modified in place afterwards)"""
+        r = getattr(g, '_straight', None)
+        if r is None:
+            r = True
+            for s_ in g.stores():
+                if tag(s_.target) not in ('local',):
+                    r = False
+            for c_ in g.calls():
+                if any(str(ty).startswith('&mut') for ty in (c_.argtys or ())):
+                    r = False
+            g._straight = r
+        return r
+
     def inline(self, t, depth=3, only=None):
         """t with every call of a straight-line in-crate helper replaced by the helper's value: a helper qualifies when it has one
         return site whose term mentions no callee-local state (multi-definition locals, loop items, upvars); its parameters are
@@ -734,7 +749,7 @@ class Program:
             if g is None or g.body.kind == 'closure':
                 return n
             rets = g.return_values()
-            if len(rets) != 1:
+            if len(rets) != 1 or not self.straight_line(g):
                 return n
             bad = []
 
